@@ -43,6 +43,8 @@ func (p Params) Name() string {
 	s := ""
 	for _, st := range p.Script {
 		switch {
+		case st.Err == context.Canceled:
+			s += "cE" // the source's own error happens to be context.Canceled
 		case st.Err != nil:
 			s += "E"
 		case st.Block:
@@ -239,6 +241,11 @@ func All() []Params {
 		{Script: []sx.Step{v(0), v(1), e}, Size: 2, CloseAfter: -1},
 		{Script: []sx.Step{e}, Size: 1, CloseAfter: -1},
 		{Script: []sx.Step{v(0), vd(1, 15*ms), e}, Size: 3, CloseAfter: -1},
+		// the source's own error is context.Canceled (not a cancellation of the library's making)
+		{Script: []sx.Step{v(0), {Err: context.Canceled}}, Size: 2, CloseAfter: -1},
+		// a full batch, then an underfilled one flushed by the timer, then more: batches handed out
+		// earlier must not change (their backing arrays are the consumer's)
+		{Script: []sx.Step{v(0), v(1), v(2), v(3), v(4), vd(5, 20*ms)}, Size: 4, CloseAfter: -1},
 		{Script: []sx.Step{v(0), v(1), v(2), v(3)}, Size: 1, ExternalClose: true},
 		{Script: []sx.Step{v(0), v(1), v(2)}, Size: 2, ExternalClose: true, Mode: 1},
 		{Script: []sx.Step{v(0), blk}, Size: 2, ExternalClose: true},
